@@ -47,7 +47,7 @@ use barter::{
     backtest::{
         BacktestArgsConstant, BacktestArgsDynamic,
         market_data::{BacktestMarketData, MarketDataInMemory},
-        run_backtests,
+        backtest, run_backtests,
         summary::BacktestSummary,
     },
     engine::{
@@ -315,7 +315,7 @@ fn k_of_cid(cid: &str) -> i64 {
 /// Trace line with every field present (TLC reads records uniformly).
 fn line(a: &str) -> Value {
     json!({"a": a, "id": 0, "tag": 0, "kind": "-", "k": 0, "sent": [], "nc": 0, "na": 0,
-           "n": 0, "recs": [], "acts": [], "sumok": true, "tsk": 0, "ck": false, "ts_ms": 0})
+           "n": 0, "recs": [], "acts": [], "fail": [], "sumok": true, "tsk": 0, "ck": false, "ts_ms": 0})
 }
 
 /// Projection of the schedule-independent facts of a run's engine state.
@@ -666,6 +666,9 @@ pub struct SlowMarketData {
     gaps_ms: Arc<Vec<u64>>,
     /// the j-th stream is (1 + j % 3) times slower: concurrent runs progress at different rates
     next: AtomicUsize,
+    /// fail_after[j] = Some(k): the j-th stream PANICS after having yielded k items (a lazily
+    /// decoded source hitting a corrupt record)
+    fail_after: Arc<Vec<Option<usize>>>,
 }
 
 impl BacktestMarketData for SlowMarketData {
@@ -678,16 +681,26 @@ impl BacktestMarketData for SlowMarketData {
     async fn stream(&self) -> Result<impl Stream<Item = Item> + Send + 'static, BarterError> {
         let events = Arc::clone(&self.events);
         let gaps = Arc::clone(&self.gaps_ms);
-        let pace = 1 + (self.next.fetch_add(1, Ordering::SeqCst) % 3) as u64;
+        let j = self.next.fetch_add(1, Ordering::SeqCst);
+        let pace = 1 + (j % 3) as u64;
+        let tag = (j + 1) as u32;
+        let fail_after = self.fail_after.get(j).copied().flatten();
         Ok(futures::stream::unfold(0usize, move |idx| {
             let events = Arc::clone(&events);
             let gaps = Arc::clone(&gaps);
             async move {
                 tokio::time::sleep(Duration::from_millis(pace * gaps[idx.min(gaps.len() - 1)])).await;
+                if fail_after == Some(idx) {
+                    panic!("c20 harness: the market data source of stream {tag} fails after {idx} items");
+                }
                 if idx >= events.len() {
                     return None;
                 }
-                Some((events[idx].clone(), idx + 1))
+                let mut ev = events[idx].clone();
+                if let MarketStreamEvent::Item(e) = &mut ev {
+                    e.kind.tag = tag;
+                }
+                Some((ev, idx + 1))
             }
         }))
     }
@@ -715,22 +728,40 @@ fn first_item_time(events: &[Item]) -> DateTime<Utc> {
     events.iter().find_map(|e| match e { MarketStreamEvent::Item(e) => Some(e.time_exchange), _ => None }).unwrap_or(time(0))
 }
 
-type CallOutcome = Result<Result<Result<Vec<BacktestSummary<Daily>>, String>, ()>, String>;
+/// panic of the whole call / wall-clock bound exceeded / one result per run
+type CallOutcome = Result<Result<Vec<Result<BacktestSummary<Daily>, String>>, ()>, String>;
 
-/// THE call under test. `bounded`: wrap it in the (tokio-time) scenario bound - not under the
-/// paused clock, where tokio time is virtual and datasets last days.
-fn call_run_backtests<MD>(
+/// THE call under test: `run_backtests` over all runs (one batch result: an error is every run's
+/// result) or, `each`, one `backtest()` per run joined concurrently (one result per run).
+/// `bounded`: wrap it in the (tokio-time) scenario bound - not under the paused clock, where
+/// tokio time is virtual and datasets last days.
+fn call_backtests<MD>(
     rt: &tokio::runtime::Runtime,
     args: Arc<BacktestArgsConstant<MD, Daily, State>>,
     dynamics: Vec<BacktestArgsDynamic<ActStrategy, DefaultRiskManager<State>>>,
     bounded: bool,
+    each: bool,
 ) -> CallOutcome
 where
     MD: BacktestMarketData<Kind = Tick>,
 {
+    let k = dynamics.len();
     catch(|| {
         rt.block_on(async {
-            let run = async { run_backtests(args, dynamics).await.map(|m| m.summaries).map_err(|e| format!("{e:?}")) };
+            let run = async {
+                if each {
+                    futures::future::join_all(dynamics.into_iter().map(|d| backtest(Arc::clone(&args), d)))
+                        .await
+                        .into_iter()
+                        .map(|r| r.map_err(|e| format!("{e:?}")))
+                        .collect::<Vec<_>>()
+                } else {
+                    match run_backtests(args, dynamics).await {
+                        Ok(m) => m.summaries.into_iter().map(Ok).collect(),
+                        Err(e) => (0..k).map(|_| Err(format!("{e:?}"))).collect(),
+                    }
+                }
+            };
             if bounded { tokio::time::timeout(SCENARIO_TIMEOUT, run).await.map_err(|_| ()) } else { Ok(run.await) }
         })
     })
@@ -772,7 +803,9 @@ fn mock_config(latency_ms: u64) -> MockExecutionConfig {
 }
 
 /// Dataset item `id` (1-based): instrument and price are functions of (data_seed, id).
-fn dataset(n: usize, data_seed: u64, recs: &[u32]) -> Vec<Item> {
+/// `late`: (id, lag): item id is `lag` seconds OLDER than its predecessor's slot (a late / re-published
+/// tick) - exchange times need not increase along a dataset.
+fn dataset(n: usize, data_seed: u64, recs: &[u32], late: &[(u32, i64)]) -> Vec<Item> {
     let mut rng = vh::util::rng(data_seed ^ 0xC20);
     let mut price = [100i64, 50i64];
     (1..=n as u32)
@@ -782,9 +815,13 @@ fn dataset(n: usize, data_seed: u64, recs: &[u32]) -> Vec<Item> {
             if recs.contains(&id) {
                 return MarketStreamEvent::Reconnecting(EXCHANGE);
             }
+            let t = match late.iter().find(|l| l.0 == id) {
+                Some((_, lag)) => time(SPACING_S * (id as i64 - 1) - lag),
+                None => time(SPACING_S * id as i64),
+            };
             MarketStreamEvent::Item(MarketEvent {
-                time_exchange: time(3600 * id as i64),
-                time_received: time(3600 * id as i64),
+                time_exchange: t,
+                time_received: t,
                 exchange: EXCHANGE,
                 instrument: InstrumentIndex(inst),
                 kind: Tick { tag: 0, id, price: dec(price[inst]) },
@@ -831,6 +868,25 @@ fn random_acts(rng: &mut impl Rng, points: &[u32], max_orders: usize) -> Value {
     Value::from(acts)
 }
 
+/// Late / re-published ticks: `count` items (never the first, a Reconnecting item, a forbidden
+/// id, or the successor of another late item) that are 30 s ... a day older than their predecessor.
+fn random_late(rng: &mut impl Rng, n: usize, recs: &[u32], forbidden: &[u32], count: usize) -> Vec<(u32, i64)> {
+    let lags = [30i64, 31, 45, 60, 300, 1800, 3600, 7200, 20_000, 86_400];
+    let mut late: Vec<(u32, i64)> = vec![];
+    let mut tries = 0;
+    while late.len() < count && tries < 20 * count + 20 {
+        tries += 1;
+        let id = rng.random_range(2..=n as u32);
+        let pred_plain = !recs.contains(&(id - 1)) && !late.iter().any(|l| l.0 == id - 1 || l.0 == id + 1);
+        if recs.contains(&id) || forbidden.contains(&id) || late.iter().any(|l| l.0 == id) || !pred_plain {
+            continue;
+        }
+        late.push((id, lags[rng.random_range(0..lags.len())]));
+    }
+    late.sort();
+    late
+}
+
 fn plan(seed: u64, tier: &str) -> Vec<Value> {
     let mut rng = vh::util::rng(seed.wrapping_mul(0x9E37_79B9).wrapping_add(20));
     let thorough = tier == "thorough";
@@ -874,18 +930,26 @@ fn plan(seed: u64, tier: &str) -> Vec<Value> {
         // (concurrent runs progress at very different rates)
         variants[1] = json!([]);
         let latency = if dsi % 2 == 0 { 0 } else { 2 };
+        // late ticks: right after a decision point (they follow the fill / balance events of the
+        // order, stamped at the clock) and elsewhere; no order is opened on a late tick
+        let mut late: Vec<(u32, i64)> = points.iter().filter(|d| **d < n as u32 && !recs.contains(&(**d + 1)) && !points.contains(&(**d + 1)))
+            .take(2).enumerate().map(|(j, d)| (*d + 1, if j == 0 { 30 } else { 7_200 })).collect();
+        let taken: Vec<u32> = points.iter().copied().chain(late.iter().flat_map(|l| [l.0 - 1, l.0, l.0 + 1])).collect();
+        late.extend(random_late(&mut rng, n, &recs, &taken, 1 + n / 40));
+        late.sort();
+        late.dedup_by_key(|l| l.0);
         // every parameter set alone
         for (vi, v) in variants.iter().enumerate() {
             name += 1;
             out.push(json!({"name": format!("g{name}"), "mode": "gated", "workers": 1, "n": n, "data_seed": data_seed, "recs": recs,
-                            "points": points, "latency_ms": latency, "alone": true, "runs": [{"variant": vi, "acts": v}]}));
+                            "points": points, "latency_ms": latency, "alone": true, "late": late, "runs": [{"variant": vi, "acts": v}]}));
         }
         for (gi, (k, w)) in grid.iter().enumerate() {
             name += 1;
             // rotate so that argument order differs between scenarios
             let runs: Vec<Value> = (0..*k).map(|r| { let vi = (r + gi) % kmax; json!({"variant": vi, "acts": variants[vi]}) }).collect();
             out.push(json!({"name": format!("g{name}"), "mode": "gated", "workers": w, "n": n, "data_seed": data_seed, "recs": recs,
-                            "points": points, "latency_ms": latency, "alone": false, "runs": runs}));
+                            "points": points, "latency_ms": latency, "alone": false, "late": late, "runs": runs}));
         }
     }
     // ---- in-memory (the repository's MarketDataInMemory): consumption clauses only ------------
@@ -924,7 +988,8 @@ fn plan(seed: u64, tier: &str) -> Vec<Value> {
         }
         recs.sort();
         recs.dedup();
-        let all: Vec<u32> = (1..=n as u32).filter(|k| !recs.contains(k)).collect();
+        let late = random_late(&mut rng, n, &recs, &[], (2 + n / 25).min(60));
+        let all: Vec<u32> = (1..=n as u32).filter(|k| !recs.contains(k) && !late.iter().any(|l| l.0 == *k)).collect();
         for (gi, (k, w)) in grid.iter().enumerate() {
             name += 1;
             let runs: Vec<Value> = (0..*k)
@@ -939,7 +1004,7 @@ fn plan(seed: u64, tier: &str) -> Vec<Value> {
                 })
                 .collect();
             out.push(json!({"name": format!("m{name}"), "mode": "inmem", "workers": w, "n": n, "data_seed": data_seed, "recs": recs,
-                            "points": [], "latency_ms": gi % 2, "alone": *k == 1, "runs": runs}));
+                            "points": [], "latency_ms": gi % 2, "alone": *k == 1, "late": late, "runs": runs}));
         }
     }
     // ---- paused clock: the data source takes (virtual) milliseconds to days ---------------------
@@ -957,7 +1022,8 @@ fn plan(seed: u64, tier: &str) -> Vec<Value> {
         }
         recs.sort();
         recs.dedup();
-        let all: Vec<u32> = (1..=n as u32).filter(|k| !recs.contains(k)).collect();
+        let late = random_late(&mut rng, n, &recs, &[], 2 + n / 25);
+        let all: Vec<u32> = (1..=n as u32).filter(|k| !recs.contains(k) && !late.iter().any(|l| l.0 == *k)).collect();
         name += 1;
         let runs: Vec<Value> = (0..*k)
             .map(|r| {
@@ -969,7 +1035,47 @@ fn plan(seed: u64, tier: &str) -> Vec<Value> {
             })
             .collect();
         out.push(json!({"name": format!("p{name}"), "mode": "paused", "workers": 1, "n": n, "data_seed": data_seed, "recs": recs,
-                        "points": [], "latency_ms": dsi % 3, "gaps": profile, "alone": *k == 1, "runs": runs}));
+                        "points": [], "latency_ms": dsi % 3, "gaps": profile, "alone": *k == 1, "late": late, "runs": runs}));
+    }
+    // ---- a market data source that FAILS part way (its stream panics after k of n items) --------
+    // (n, gaps, api, fails per run)
+    let failing: Vec<(usize, &str, &str, Vec<Option<usize>>)> = {
+        let mut v = vec![
+            (40, "short", "run_backtests", vec![Some(rng.random_range(1..40usize))]),
+            (30, "long", "run_backtests", vec![Some(0)]),
+            (60, "short", "backtest", vec![None, Some(rng.random_range(1..60usize)), None, Some(0)]),
+            (50, "long", "run_backtests", vec![None, Some(rng.random_range(1..50usize)), None]),
+            (25, "tail", "backtest", vec![Some(24), None]),
+        ];
+        if thorough {
+            v.push((300, "long", "backtest", (0..16).map(|r| if r % 3 == 1 { Some(rng.random_range(0..300usize)) } else { None }).collect()));
+            v.push((120, "short", "run_backtests", (0..8).map(|r| if r == 5 { Some(77) } else { None }).collect()));
+            for kf in [1usize, 2, 3, 10, 11] {
+                v.push((12, "short", "backtest", vec![Some(kf), None]));
+            }
+        }
+        v
+    };
+    for (dsi, (n, profile, api, fails)) in failing.iter().enumerate() {
+        let n = *n;
+        let data_seed = seed * 1000 + 800 + dsi as u64;
+        let mut recs: Vec<u32> = (0..(1 + n / 30)).map(|_| rng.random_range(2..=n as u32)).collect();
+        recs.sort();
+        recs.dedup();
+        let all: Vec<u32> = (1..=n as u32).filter(|k| !recs.contains(k)).collect();
+        name += 1;
+        let runs: Vec<Value> = (0..fails.len())
+            .map(|r| {
+                let mut pts: Vec<u32> = (0..4).map(|_| all[rng.random_range(0..all.len())]).collect();
+                pts.push(all[0]);
+                pts.sort();
+                pts.dedup();
+                json!({"variant": r, "acts": random_acts(&mut rng, &pts, 5)})
+            })
+            .collect();
+        out.push(json!({"name": format!("f{name}"), "mode": "paused", "workers": 1, "n": n, "data_seed": data_seed, "recs": recs,
+                        "points": [], "latency_ms": dsi % 3, "gaps": profile, "alone": fails.len() == 1, "api": api,
+                        "fails": fails, "runs": runs}));
     }
     out
 }
@@ -1003,7 +1109,14 @@ fn run_scenario(scn: &Value, trace: &mut Out, results: &mut Out, totals: &mut Va
     let gated = mode == "gated";
     let paused = mode == "paused";
 
-    let events = Arc::new(dataset(n, data_seed, &recs));
+    let late: Vec<(u32, i64)> = scn["late"].as_array().map(|v| v.iter().map(|x| (x[0].as_u64().unwrap() as u32, x[1].as_i64().unwrap())).collect()).unwrap_or_default();
+    // fails[r] = k: the data source of run r fails after k items (paused family only)
+    let fails: Vec<Option<usize>> = (0..k).map(|r| scn["fails"].get(r).and_then(|x| x.as_u64()).map(|x| x as usize)).collect();
+    let each = scn["api"].as_str() == Some("backtest");
+    if fails.iter().any(|f| f.is_some()) && !paused {
+        usage("a failing data source is available in the paused family only");
+    }
+    let events = Arc::new(dataset(n, data_seed, &recs, &late));
     let instruments = instruments(scn["untraded_exchange"].as_bool().unwrap_or(false));
     let engine_state: State = EngineState::builder(&instruments, RecGlobal::default(), RecInst::default)
         .time_engine_start(time(3600))
@@ -1057,20 +1170,21 @@ fn run_scenario(scn: &Value, trace: &mut Out, results: &mut Out, totals: &mut Va
             stream_delay: Duration::from_millis(scn["stream_delay_ms"].as_u64().unwrap_or(0)),
         };
         let args = Arc::new(BacktestArgsConstant { instruments, executions, market_data: md, summary_interval: Daily, engine_state });
-        call_run_backtests(&rt, args, dynamics, true)
+        call_backtests(&rt, args, dynamics, true, each)
     } else if paused {
         let md = SlowMarketData {
             events: events.clone(),
             time_first: first_item_time(&events),
             gaps_ms: Arc::new(gaps(n, data_seed, scn["gaps"].as_str().unwrap_or("long"))),
             next: AtomicUsize::new(0),
+            fail_after: Arc::new(fails.clone()),
         };
         let args = Arc::new(BacktestArgsConstant { instruments, executions, market_data: md, summary_interval: Daily, engine_state });
-        call_run_backtests(&rt, args, dynamics, false)
+        call_backtests(&rt, args, dynamics, false, each)
     } else {
         let md = MarketDataInMemory::new(events.clone());
         let args = Arc::new(BacktestArgsConstant { instruments, executions, market_data: md, summary_interval: Daily, engine_state });
-        call_run_backtests(&rt, args, dynamics, true)
+        call_backtests(&rt, args, dynamics, true, each)
     };
     let wall = t0.elapsed().as_secs_f64();
     rt.shutdown_timeout(Duration::from_secs(5));
@@ -1078,12 +1192,13 @@ fn run_scenario(scn: &Value, trace: &mut Out, results: &mut Out, totals: &mut Va
     if gate_timeouts.load(Ordering::SeqCst) > 0 {
         tool_error(&format!("scenario {name}: a data-source gate was not released within {GATE_TIMEOUT:?} (wall-clock bound; not a verdict)"));
     }
-    let (status, summaries): (String, Vec<BacktestSummary<Daily>>) = match outcome {
-        Err(panic) => (format!("panic: {panic}"), vec![]),
+    // one result per run
+    let per_run: Vec<Result<BacktestSummary<Daily>, String>> = match outcome {
+        Err(panic) => (0..k).map(|_| Err(format!("panic: {panic}"))).collect(),
         Ok(Err(())) => tool_error(&format!("scenario {name}: run_backtests did not return within {SCENARIO_TIMEOUT:?} (wall-clock bound; not a verdict)")),
-        Ok(Ok(Err(e))) => (format!("error: {e}"), vec![]),
-        Ok(Ok(Ok(v))) => ("ok".to_string(), v),
+        Ok(Ok(v)) => v.into_iter().map(|r| r.map_err(|e| format!("error: {e}"))).collect(),
     };
+    let injected = fails.iter().any(|f| f.is_some());
 
     // timestamps are schedule-independent (up to the wall-clock slack) when nothing of the dataset
     // can be processed between an order's event and the stamping of its request: gated source, or
@@ -1094,7 +1209,16 @@ fn run_scenario(scn: &Value, trace: &mut Out, results: &mut Out, totals: &mut Va
         let sk = o.sink.lock();
         let acts_ks: Vec<u32> = o.acts.iter().map(|a| a.k).collect();
         let tag = sk.tags.first().copied().unwrap_or(0);
+        if paused && tag != 0 && tag as usize != r + 1 {
+            tool_error(&format!("scenario {name}: run {r} was fed by stream {tag} - stream() calls were not made in argument order"));
+        }
+        let status: String = match per_run.get(r) {
+            Some(Ok(_)) => "ok".to_string(),
+            Some(Err(e)) => e.clone(),
+            None => "error: no result for this run".to_string(),
+        };
         let mut reset = line("Reset");
+        reset["fail"] = json!(fails[r].iter().collect::<Vec<_>>());
         reset["n"] = json!(n);
         reset["recs"] = json!(recs_nonempty);
         reset["acts"] = json!(acts_ks);
@@ -1116,7 +1240,7 @@ fn run_scenario(scn: &Value, trace: &mut Out, results: &mut Out, totals: &mut Va
             }
         }
         // the summary of this run (summaries are returned in argument order; the id says which)
-        let summary = summaries.get(r);
+        let summary = per_run.get(r).and_then(|x| x.as_ref().ok());
         let id_ok = summary.map(|s| s.id.as_str() == format!("{r}")).unwrap_or(false);
         let sum_json = summary.map(project_summary).unwrap_or(json!("none"));
         // (a run whose strategy was never called has shown no engine state to compare with)
@@ -1131,6 +1255,16 @@ fn run_scenario(scn: &Value, trace: &mut Out, results: &mut Out, totals: &mut Va
             end["sumok"] = json!(sumok);
             end["tag"] = json!(tag);
             trace.line(&end);
+        } else if fails[r].is_some() && status.contains("JoinError") {
+            // the forwarder's error came back: no summary for the run whose data source failed
+            let mut e = line("Fail");
+            e["nc"] = json!(sk.nc);
+            e["na"] = json!(sk.na);
+            e["tag"] = json!(tag);
+            trace.line(&e);
+        } else if injected && !each && fails[r].is_none() && status.contains("JoinError") {
+            // run_backtests (try_join_all) returned the failing run's error for the whole batch and
+            // dropped this run's future: no summary, nothing more to judge than the prefix it saw
         } else {
             let mut e = line("Abort");
             e["kind"] = json!(status.clone());
@@ -1156,6 +1290,8 @@ fn run_scenario(scn: &Value, trace: &mut Out, results: &mut Out, totals: &mut Va
             "fired": sk.fired, "facts": sk.facts, "digest": sk.digest, "summary": sum_json, "summary_id_ok": id_ok, "sumok": sumok,
             "order_states": sk.order_states, "anomalies": sk.anomalies,
             "extra_streams": extra_streams.load(Ordering::SeqCst), "wall_s": wall,
+            "source_fails_after": fails[r], "scenario_has_failing_source": injected, "api": if each { "backtest" } else { "run_backtests" },
+            "late_items": late.len(),
         }));
         totals["runs"] = json!(totals["runs"].as_u64().unwrap_or(0) + 1);
         totals["events"] = json!(totals["events"].as_u64().unwrap_or(0) + sk.nc as u64);
